@@ -103,3 +103,10 @@ PROPS["C04"] = {
 }
 
 NOT_APPLICABLE = {}
+
+# per-property fragments: tools/props_d/Cxx.py, each defines PROP = {...}
+import glob as _glob, os as _os
+for _f in sorted(_glob.glob(_os.path.join(_os.path.dirname(_os.path.abspath(__file__)), "props_d", "C*.py"))):
+    _ns = {}
+    exec(compile(open(_f).read(), _f, "exec"), _ns)
+    PROPS[_os.path.basename(_f)[:-3]] = _ns["PROP"]
